@@ -49,6 +49,22 @@ def run(chk):
               "scipy.fftpack.dct inverted by the evaluator at the nodes: monitored (node reproduction), not proved")
     chk.assume("interpolation error against the analytic function is monitored only")
     chk.coq()
+    field_oracle(chk, tr)
+
+
+class Prefixed:
+    """a view of a Check whose failure keys carry a prefix (C07 runs this oracle on the ingredients of the curvature)"""
+    def __init__(self, chk, prefix):
+        self._chk, self._prefix = chk, prefix
+
+    def __getattr__(self, name):
+        return getattr(self._chk, name)
+
+    def fail(self, key, what, replay):
+        self._chk.fail(self._prefix + key, what, replay)
+
+
+def field_oracle(chk, tr):
     rng = random.Random(chk.seed)
     bs = boxes(rng, chk.tier)
     rc, res, o, e = common.run_impl_json("impl/fields.py", dict(boxes=bs), timeout=900)
@@ -101,9 +117,10 @@ def run(chk):
         tol_node = 1e-12 if b["method"] == "spline" else 1e-9
         if r["node_err"] > tol_node * r["psi_scale"]:
             chk.fail(f"nodes:{b['method']}", "the interpolant does not reproduce the input array at the nodes", dict(where, max_err=r["node_err"]))
-        for nm, (es, em) in r["kinds"].items():
-            if es > 1e-13 or em > 1e-13:
-                chk.fail("argument-kinds", f"{nm}: scalar / array / MultiLocationArray arguments give different numbers", dict(where, scalar_vs_array=es, mla_vs_array=em))
+        for nm, (es, em, at) in r["kinds"].items():
+            if not (es <= 1e-13 and em <= 1e-13):
+                chk.fail("argument-kinds", f"{nm}: scalar / array / MultiLocationArray arguments (all or only some locations set) give different numbers",
+                         dict(where, scalar_vs_array=es, mla_vs_array=em, locations_set_and_location_wrong=at))
         # translation validation: generated field formulas evaluated with the implementation's own interpolant values
         if "fields" in tr:
             env = {"R": R, "Z": P[:, 1], "psi": lambda a, c: np.array(V["psi"]), "psiR": lambda a, c: pR, "psiZ": lambda a, c: pZ,
